@@ -28,7 +28,7 @@ MAG = "src/scinumtools/units/magnitude.py"
 QTY = "src/scinumtools/units/quantity.py"
 UT = UNIT_TYPES_PY
 
-NONNEG, ANY, NONEV = "NonNeg", "Any", "None"
+NONNEG, ANY, NONEV, UNKNOWN = "NonNeg", "Any", "None", "Unknown"     # Unknown: a construct the sign domain does not interpret
 PUBLIC_INPUT = {("Magnitude.__init__", "abse"), ("Magnitude.abse", "abse"), ("Quantity.__init__", "abse"),
                 ("Quantity.abse", "error"), ("Quantity.__init__", "rele"), ("Magnitude.__init__", "rele"),
                 ("Magnitude.rele", "rele"), ("Quantity.rele", "error")}
@@ -39,7 +39,9 @@ def join(a, b):
         return a
     if {a, b} <= {NONNEG, NONEV}:
         return NONNEG   # "non-negative or None"
-    return ANY
+    if ANY in (a, b):
+        return ANY
+    return UNKNOWN
 
 
 class Sign:
@@ -65,8 +67,17 @@ class Sign:
             if n.attr == "error":
                 return NONNEG      # inductive hypothesis: stored errors are non-negative or None
             return ANY
+        if isinstance(n, (ast.List, ast.Tuple)):
+            # a list of terms (argument of max/sum): non-negative when every element is
+            r = None
+            for e in n.elts:
+                s_ = self.of(e)
+                r = s_ if r is None else (s_ if r == s_ else (ANY if ANY in (r, s_) else (NONNEG if {r, s_} <= {NONNEG, NONEV} else UNKNOWN)))
+            return r or UNKNOWN
         if isinstance(n, ast.BinOp):
             a, b = self.of(n.left), self.of(n.right)
+            if UNKNOWN in (a, b) and ANY not in (a, b):
+                return UNKNOWN
             if isinstance(n.op, (ast.Add, ast.Mult, ast.Div)):
                 return NONNEG if a == NONNEG and b == NONNEG else ANY
             if isinstance(n.op, ast.Pow):
@@ -85,14 +96,19 @@ class Sign:
             if f in ("np.max", "max", "np.maximum", "np.amax", "np.min", "min", "np.minimum", "np.sum", "sum",
                      "np.hypot"):
                 args = n.args[0].elts if len(n.args) == 1 and isinstance(n.args[0], (ast.List, ast.Tuple)) else n.args
-                return NONNEG if args and all(self.of(a) == NONNEG for a in args) else ANY
+                sg = [self.of(a) for a in args if not isinstance(a, ast.keyword)]
+                if sg and all(x == NONNEG for x in sg):
+                    return NONNEG
+                return ANY if ANY in sg else UNKNOWN
             if f in ("np.full_like",) and len(n.args) == 2:
                 return self.of(n.args[1])
             if f in ("float", "np.array", "np.asarray", "Decimal", "np.float64") and n.args:
                 return self.of(n.args[0])
             if f.startswith("self.") and f[5:] in self.cm and self.depth < 3:
                 return self.method_return(self.cm[f[5:]])
-            return ANY
+            return UNKNOWN          # a call the domain does not know
+        if isinstance(n, (ast.ListComp, ast.GeneratorExp, ast.Subscript, ast.Dict, ast.JoinedStr, ast.Lambda)):
+            return UNKNOWN
         return ANY
 
     def method_return(self, fn):
@@ -197,8 +213,11 @@ def r1_nonnegative(ctx):
                     for a in ast.walk(fn))
                 if local or not isinstance(err, (ast.Constant, ast.Name, ast.Attribute)):
                     ncomputed += 1
-                ctx.check(sg in (NONNEG, NONEV), rel, qual, f"{kind}: error term {norm(err)[:90]}", detail=sg,
-                          expected="NonNeg or None")
+                if sg == UNKNOWN:
+                    ctx.unrecognised(rel, qual, f"{kind}: error term {norm(err)[:90]}", "the sign domain does not interpret a part of this term")
+                else:
+                    ctx.check(sg in (NONNEG, NONEV), rel, qual, f"{kind}: error term {norm(err)[:90]}", detail=sg,
+                              expected="NonNeg or None")
     ctx.floor("error-term sites", nsites, 14)
     ctx.floor("computed error terms", ncomputed, 6)
     ctx.info["error_sites"] = nsites
